@@ -217,6 +217,9 @@ class Gen:
             opts.append(self.literal(ty))
         if not opts:
             return None
+        idx = [o for o in opts if o[0] == "path" and any(e[0] == "iv" for e in o[2])]
+        if idx and r.random() < 0.6:
+            return r.choice(idx)
         return r.choice(opts)
 
     def service_ins(self, vars_, loopvars):
@@ -239,7 +242,7 @@ class Gen:
             ins = []
             if r.random() < self.p.params:
                 for j in range(r.randint(1, 2)):
-                    ins.append(("p%d" % j, ("plain", r.choice(["Data", "Inner", "Item", "number"]))))
+                    ins.append(("p%d" % j, ("plain", r.choice(["Data", "Inner", "Item", "Item", "number"]))))
             sigs.append({"name": "t%d" % (i + 1), "ins": ins})
         self.sigs = sigs
         tasks = []
@@ -336,8 +339,12 @@ class Gen:
 
 
 def gen_case(rng, profile):
-    g = Gen(rng, profile)
-    prog = g.gen_program()
+    import shapes
+    for _ in range(200):
+        g = Gen(rng, profile)
+        prog = g.gen_program()
+        if profile.parloop_shapes == "all" or not shapes.parloop_findings(prog):
+            break
     nvals = rng.randint(2, 10)
     vals = [gen_valuation(rng) for _ in range(nvals)] + [FINAL_VALUATION]
     imm = [rng.random() < profile.imm for _ in range(40)]
